@@ -118,6 +118,11 @@ def replay(ctx, cfg, hist, key):
             raise
         except Exception as e:
             cause = type(e).__name__ + ('-dt0' if op == 'make_U_II' and l['dt'] == [0, 0] else '')
+            if op == 'termlist_roundtrip':
+                # classification only: __add__ / plus_identity store IdR as negative indices
+                H_ = im.slots.get(l['s'])
+                if H_ is not None and any(x is not None and x < 0 for x in H_.IdR):
+                    cause = 'negative-IdR-index'
             viol(ctx, l, 'exception', hist, n, cfg, error=repr(e), cause=cause)
             return False
         if not ok:
@@ -359,7 +364,7 @@ def check(ctx):
                'compression methods are checked as relations: |O psi - result|^2 <= reported eps + 1e-8 (no truncation requested)')
     only = ctx.only
     if not only or 'mc' in only:
-        res = run_mc(ctx, 'MPOAlgebra-depth2', 'ConfigsQuick' if quick else 'ConfigsFull', 2, 0, 4 if quick else 1)
+        res = run_mc(ctx, 'MPOAlgebra-depth2', 'ConfigsQuick' if quick else 'ConfigsFull', 2, 0, 5 if quick else 1)
         runs = [res]
         if not quick:
             runs.append(run_mc(ctx, 'MPOAlgebra-depth3', 'ConfigsQuick', 3, 1, 2))
@@ -372,7 +377,7 @@ def check(ctx):
         if missing:
             raise core.MachineryError('actions never taken in the MC runs (vacuous): %r' % missing)
     if not only or 'sim' in only:
-        run_sim(ctx, 'ConfigsQuick' if quick else 'ConfigsFull', 120 if quick else 3000, 6)
+        run_sim(ctx, 'ConfigsQuick' if quick else 'ConfigsFull', 80 if quick else 2400, 6)
     if not only or 'canary' in only:
         run_canary(ctx)
     ctx.exhaustive = False
